@@ -276,10 +276,15 @@ def finish(pid, tier, t0, model, events, traces, rejects, samples, classes, rule
     """Common tail of every check: classify rejects, print lines, write evidence, return exit code."""
     mine = [r for r in rejects if r["prop"] in (pid, "ANY")]
     harness = [r for r in mine if r["why"].startswith("H:")]
+    mine = [r for r in mine if not r["why"].startswith("H:")]
     if harness:
         for r in harness[:5]:
             log("HARNESS-INCONSISTENCY", r["why"], json.dumps(r.get("event"))[:400])
-        raise Broken("the harness and the specification disagree about what was called (%d events)" % len(harness))
+        if not mine:
+            # nothing but set-up inconsistencies: the run proves nothing either way
+            raise Broken("the harness and the specification disagree about what was called (%d events)" % len(harness))
+        # a broken implementation can also derail scenario set-up; the real rejects below decide
+        log("note: %d set-up inconsistencies ignored next to %d rejected events" % (len(harness), len(mine)))
     known = load_known()
     viol, kf = {}, {}
     for r in mine:
